@@ -23,6 +23,7 @@ type muxOp struct {
 	AF   string `json:"af,omitempty"`   // adaptation field class (data)
 	SID  int    `json:"sid,omitempty"`  // stream id (data), 0 = let the muxer choose
 	Kind string `json:"kind,omitempty"` // packet kind (packet)
+	Fill string `json:"fill,omitempty"` // payload content (data): "" random; "sc0".."sc3": 00 00 01 e0 repeated, rotated by 0..3 bytes
 	Pred *M     `json:"pred,omitempty"` // what the system model predicts (drift reporting only)
 }
 
@@ -349,6 +350,15 @@ func runMuxOn(sc *muxScenario, rec *recorder, w *recWriter) {
 					}
 				}
 				payload := r.bytes(op.Len)
+				if len(op.Fill) == 3 && op.Fill[:2] == "sc" {
+					// elementary stream data that looks like PES start codes everywhere: for one of the four rotations a continuation packet's
+					// payload begins with 00 00 01 e0 (payload content is opaque to a demultiplexer)
+					pat := []byte{0, 0, 1, 0xe0}
+					rot := int(op.Fill[2] - '0')
+					for j := range payload {
+						payload[j] = pat[(j+rot)%4]
+					}
+				}
 				keep := append([]byte(nil), payload...)
 				d := &astits.MuxerData{PID: uint16(resolve(op.PID)), AdaptationField: af, PES: &astits.PESData{Header: hdr, Data: payload}}
 				afp := projAF(af) // before the call: the muxer adds stuffing to this struct
